@@ -403,7 +403,7 @@ pub fn history_bytes(src: &mut ByteSrc, total: bool, max_ops: usize) -> History 
     }
     let points = points_bytes(src, MAXD);
     let anchors = (0..(1 + src.below(3))).map(|_| src.lattice(MAXD)).collect();
-    let mut h = History { in_dim, out0, ctor, ops, points, anchors };
+    let mut h = History { in_dim, out0, ctor, ops, points, anchors, shift: 0 };
     if total {
         c06::make_total_pub(&mut h);
     }
